@@ -467,6 +467,8 @@ def reject_floors(ctx):
         RC + "bracket": 9, RC + "escape": 10, RC + "parse_character_class": 12, RC + "parse_atom": 2, RC + "parse_terminal": 4,
         RC + "piece": 2, RC + "parse_expr": 2, RC + "compile": 2, "category::get_category_group": 1, "category::BlockLookup::lookup": 1, "re_flags::ReFlags::new": 3,
     }
+    # a private lookup and its only caller are counted together: which of the two words the rejection is a matter of style
+    together = {"category::get_category_group": ["category::category_group"], "category::BlockLookup::lookup": ["category::block"]}
     out = []
     for P, fl in sorted(floors.items()):
         b = ctx.body(P)
@@ -475,10 +477,13 @@ def reject_floors(ctx):
             continue
         n = 0
         bodies = [b] + [x for x in ctx.f.bodies if x.path.startswith(P + "::{closure")]
+        for Q in together.get(P, []):
+            if ctx.body(Q) is not None:
+                bodies += [ctx.body(Q)] + [x for x in ctx.f.bodies if x.path.startswith(Q + "::{closure")]
         for bd in bodies:
             # a closure created at k places of the function (e.g. a helper inlined at k call sites) counts k times
             w = 1
-            if bd is not b:
+            if bd is not b and bd.path.startswith(P + "::{closure"):
                 w = max(1, sum(1 for blk in b.blocks if not blk["cleanup"] for st in blk["stmts"] if st["k"] == "assign" and st["rv"]["k"] == "agg" and st["rv"].get("agg") == "closure" and strip_lt(st["rv"].get("def", "")) == bd.path))
             for bb, t, r in call_sites(bd, lambda r: r == "re_compiler::Error::syntax"):
                 n += w
